@@ -675,6 +675,12 @@ fn spawn_async_ao_list_in_task'''),
         ('implied-redirection-replaces-the-redirections-of-a-compound-command', 'brush-parser/src/parser/peg.rs', "        if let Some(l) = l {\n            l.0.push(r);\n        } else {", "        if let Some(_) = l {\n            *l = Some(ast::RedirectList(vec![r]));\n        } else {"),
         ('implied-redirection-duplicates-input', 'brush-parser/src/parser/peg.rs', "        ast::IoFileRedirectKind::DuplicateOutput,\n        ast::IoFileRedirectTarget::Fd(1),", "        ast::IoFileRedirectKind::DuplicateInput,\n        ast::IoFileRedirectTarget::Fd(1),"),
     ],
+    'U61': [
+        ('first-argument-indexed-without-looking', 'brush-core/src/interp.rs', "                            if let Some(first_arg) = next_args.first() {\n                                if context\n                                    .shell\n                                    .builtins()\n                                    .get(first_arg.as_str())", "                            {\n                                let first_arg = &next_args[0];\n                                if context\n                                    .shell\n                                    .builtins()\n                                    .get(first_arg.as_str())"),
+        ('redirection-before-the-command-name-skipped', 'brush-core/src/interp.rs', "                CommandPrefixOrSuffixItem::IoRedirect(redirect) => {\n                    if let Err(e) = setup_redirect(&mut context.shell, &mut params, redirect).await\n                    {", "                CommandPrefixOrSuffixItem::IoRedirect(redirect) => {\n                    if !args.is_empty()\n                        && let Err(e) = setup_redirect(&mut context.shell, &mut params, redirect).await\n                    {"),
+        ('failed-redirection-ignored', 'brush-core/src/interp.rs', "                        writeln!(params.stderr(&context.shell), \"error: {e}\")?;\n                        return Ok(ExecutionResult::general_error().into());", "                        writeln!(params.stderr(&context.shell), \"error: {e}\")?;"),
+        ('redirection-set-up-twice', 'brush-core/src/interp.rs', "                    if let Err(e) = setup_redirect(&mut context.shell, &mut params, redirect).await\n                    {", "                    let _ = setup_redirect(&mut context.shell, &mut params, redirect).await;\n                    if let Err(e) = setup_redirect(&mut context.shell, &mut params, redirect).await\n                    {"),
+    ],
     'U60': [
         ('only-a-single-bang-negates', 'brush-parser/src/parser/peg.rs', "let invert = bang.len() % 2 == 1;", "let invert = bang.len() == 1;"),
         ('any-bang-negates', 'brush-parser/src/parser/peg.rs', "let invert = bang.len() % 2 == 1;", "let invert = !bang.is_empty();"),
